@@ -1,8 +1,9 @@
 (* (d) spine insertion = precedence climbing.  The classical equivalence of the
    operator-precedence stack algorithm (Spec.Chains.spine_run) with the recursive
    precedence-climbing reference (Spec.Pratt.climb): the open frames of the stack are
-   the pending recursive calls of [climb].  Proved for every item list over values,
-   prefix, suffix and binary operators (no length bound). *)
+   the pending recursive calls of [climb] (an open bracket is the call of the IOpen case).
+   Proved for every item list over values, prefix, suffix and binary operators and
+   brackets (no length or depth bound). *)
 From Coq Require Import List Arith Bool NArith Lia.
 From GV Require Import Base.Result Gen.TokenTypes Gen.Defs Model.Parser Spec.RefTable Spec.Pratt Spec.Chains.
 Import ListNotations.
